@@ -89,6 +89,7 @@ def setup(ctx):
     import biotite.structure as struc_
     import biotite.structure.io.pdbx as pdbx_
     struc, pdbx = struc_, pdbx_
+    _CTXREF[0] = ctx
     BT = struc.BondType
     path = os.path.join(os.path.dirname(os.path.dirname(os.path.dirname(os.path.abspath(__file__)))), "fixtures", "ccd.py")
     spec = importlib.util.spec_from_file_location("vf_fixture_ccd", path)
@@ -329,6 +330,23 @@ def gen_structure(rng, ctx, want_bonds, max_models=4):
     return s
 
 
+_SET_DEFAULTS = dict(include_bonds=False, extra_fields=[])
+_GET_DEFAULTS = dict(include_bonds=False, extra_fields=None)
+_CTXREF = [None]
+
+
+def _dd(kwargs, defaults):
+    """Leave out keyword arguments that equal the documented defaults in every second case (vf.core.drop_defaults)."""
+    from vf.core import drop_defaults
+    ctx = _CTXREF[0]
+    if ctx is None:
+        return kwargs
+    kw = dict(kwargs)
+    if "extra_fields" in kw and kw["extra_fields"] is not None and len(kw["extra_fields"]) == 0 and (ctx.index or 0) % 2 == 0:
+        del kw["extra_fields"]            # [] and None both mean: no optional annotation
+    return drop_defaults(ctx, kw, {k: v for k, v in defaults.items() if k != "extra_fields"})
+
+
 def inter_types(ctx):
     t = list(INTER_CLEAN)
     if ctx.allowed("inter_residue_bond_order"):
@@ -406,13 +424,13 @@ def write_read(fmt, obj, extra, include_bonds, scribble=False):
         obj = obj.copy()
     if fmt == "cif":
         f = pdbx.CIFFile()
-        pdbx.set_structure(f, obj, data_block="blk", include_bonds=include_bonds, extra_fields=extra)
+        pdbx.set_structure(f, obj, **_dd(dict(data_block="blk", include_bonds=include_bonds, extra_fields=extra), _SET_DEFAULTS))
         if scribble:
             _scribble(obj)
         text = f.serialize()
         return pdbx.CIFFile.deserialize(text)
     f = pdbx.BinaryCIFFile()
-    pdbx.set_structure(f, obj, data_block="blk", include_bonds=include_bonds, extra_fields=extra)
+    pdbx.set_structure(f, obj, **_dd(dict(data_block="blk", include_bonds=include_bonds, extra_fields=extra), _SET_DEFAULTS))
     if scribble:
         _scribble(obj)
     if fmt == "bcif_compressed":
@@ -535,10 +553,10 @@ def case_roundtrip(rng, ctx, want_bonds):
             ctx.op("struct_conn_matcher_dict")
         try:
             if as_stack:
-                got = pdbx.get_structure(f, extra_fields=shared_extra, include_bonds=want_bonds)
+                got = pdbx.get_structure(f, **_dd(dict(extra_fields=shared_extra, include_bonds=want_bonds), _GET_DEFAULTS))
                 compare_structure(ctx, got, s, fmt, "%s stack" % fmt, bonds=want_bonds)
             else:
-                got = pdbx.get_structure(f, model=1, extra_fields=shared_extra, include_bonds=want_bonds)
+                got = pdbx.get_structure(f, **_dd(dict(model=1, extra_fields=shared_extra, include_bonds=want_bonds), _GET_DEFAULTS))
                 compare_structure(ctx, got, s, fmt, "%s array" % fmt, model=0, bonds=want_bonds)
         finally:
             conv.FIND_MATCHES_SWITCH_THRESHOLD = thr0
@@ -594,7 +612,7 @@ def case_model_select(rng, ctx):
     for k in list(range(1, m + 1)) + list(range(-m, 0)):
         ctx.oracle("model_rows")
         ctx.op("get_structure_model")
-        got = pdbx.get_structure(f, model=k, extra_fields=sorted(s["opt"]), include_bonds=s["bonds"] is not None)
+        got = pdbx.get_structure(f, **_dd(dict(model=k, extra_fields=sorted(s["opt"]), include_bonds=s["bonds"] is not None), _GET_DEFAULTS))
         compare_structure(ctx, got, s, fmt, "%s model=%d" % (fmt, k), model=(k - 1 if k > 0 else m + k), bonds=s["bonds"] is not None)
     for bad in (0, m + 1, -m - 1):
         ctx.oracle("model_out_of_range_rejected")
